@@ -125,6 +125,8 @@ class MetricParam:
         elif kind == "riem_chol":
             self.L0 = np.tril(rng.standard_normal((dim, dim)) * 0.3) + np.diag(1.0 + rng.uniform(0, 1, dim))
             self.T = np.stack([np.tril(rng.standard_normal((dim, dim))) * (0.2 / dim) for _ in range(dim)])
+            if rng.integers(0, 2):  # arbitrary data in the unused (upper) triangle of the array the user function returns
+                self.L0 = self.L0 + np.triu(rng.standard_normal((dim, dim)), 1)
         elif kind == "riem_dense":
             self.M0, _, _ = random_spd(rng, dim, 1.0, 2.5)
             s = rng.standard_normal((dim, dim, dim)) * (0.25 / dim)
@@ -132,6 +134,8 @@ class MetricParam:
         elif kind == "riem_generic:chol_upper":
             self.L0 = np.triu(rng.standard_normal((dim, dim)) * 0.3, 1) + np.diag(1.0 + rng.uniform(0, 1, dim))
             self.T = np.stack([np.triu(rng.standard_normal((dim, dim))) * (0.2 / dim) for _ in range(dim)])
+            if rng.integers(0, 2):
+                self.L0 = self.L0 + np.tril(rng.standard_normal((dim, dim)), -1)
         elif kind.startswith("riem_generic:lowrank"):
             self.r = max(1, dim // 2)
             self.base = rng.uniform(0.8, 2.0, dim)
@@ -349,10 +353,13 @@ def _const_metric(kind: str, dim: int, rng):
         return (m.copy() if kind == "dense_array" else mm.DensePositiveDefiniteMatrix(m.copy())), m
     if kind in ("chol_lower", "chol_upper"):
         lo = np.tril(rng.standard_normal((dim, dim)) * 0.4) + np.diag(rng.uniform(0.7, 1.6, dim))
+        # the array handed over may hold arbitrary data in its unused triangle (as LAPACK-style factors do): the class is
+        # documented to use the relevant triangle only
+        junk = np.triu(rng.standard_normal((dim, dim)), 1) if rng.integers(0, 2) else np.zeros((dim, dim))
         if kind == "chol_lower":
-            return mm.TriangularFactoredPositiveDefiniteMatrix(lo.copy(), factor_is_lower=True), lo @ lo.T
+            return mm.TriangularFactoredPositiveDefiniteMatrix(lo + junk, factor_is_lower=True), lo @ lo.T
         up = lo.T.copy()
-        return mm.TriangularFactoredPositiveDefiniteMatrix(up.copy(), factor_is_lower=False), up @ up.T
+        return mm.TriangularFactoredPositiveDefiniteMatrix(up + junk.T, factor_is_lower=False), up @ up.T
     if kind == "eig":
         m, q, lam = random_spd(rng, dim, 0.4, 2.5)
         return mm.EigendecomposedPositiveDefiniteMatrix(q.copy(), lam.copy()), (q * lam) @ q.T
